@@ -245,23 +245,29 @@ def run(ctx) -> None:
     ctx.visit(ifp.fq)
     pm = [c for c in ast.walk(ifp.node) if isinstance(c, ast.Call) and unparse(c.func) == "PatternMatch"]
     ctx.require(len(pm) == 1, f"{ifp.name}: PatternMatch constructor not found")
-    lps = [n for n in walk_no_nested(ifp.node) if isinstance(n, ast.For) and unparse(n.iter).startswith("enumerate(") and any(c is pm[0] for c in ast.walk(n))]
-    ctx.require(len(lps) == 1, f"{ifp.name}: line loop not found")
-    lp = lps[0]
-    names = [unparse(e) for e in lp.target.elts] if isinstance(lp.target, ast.Tuple) else []
-    pmf = prog.klass("parse.PatternMatch").fields
-    a = dict(zip(pmf, pm[0].args))
-    a.update(shapes.kwargs_of(pm[0]))
-    span_e = a.get("span")
-    mvar = unparse(span_e.func.value) if isinstance(span_e, ast.Call) and isinstance(span_e.func, ast.Attribute) and span_e.func.attr == "span" and not span_e.args else None
-    mdef = shapes.single_def(ifp, mvar) if mvar else None
-    pat_e = unparse(a.get("pattern", ast.Constant(0)))
-    pat_ok = pat_e == (ifp.params[1] if ifp.name == "_iter_for_pattern" else None) or any(isinstance(l_, ast.For) and unparse(l_.target) == pat_e and any(x is lp for x in ast.walk(l_))
-                                                                                         for l_ in walk_no_nested(ifp.node))
-    ok = len(names) == 2 and unparse(a.get("lineno", ast.Constant(0))) == names[0] and unparse(a.get("line", ast.Constant(0))) == names[1] \
-        and mvar is not None and mdef is not None and unparse(mdef) == f"{pat_e}.regexp.search({names[1]})" and pat_ok
-    ctx.check("R3", ok, "_iter_for_pattern: PatternMatch(lineno, line, pattern, match.span(), ...) of the same enumerate step and search",
-              "parse._iter_for_pattern: a match is recorded with a line/span of a different line", unparse(pm[0]), loc=ifp.loc(pm[0]))
+    from checks.c03 import line_search_fold
+    folded4 = line_search_fold(ctx, ifp) if ifp.name == "_iter_for_pattern" else None
+    if folded4 is not None:
+        ctx.check("R3", not folded4, "_iter_for_pattern: PatternMatch(lineno, line, pattern, match.span(), ...) of the same step and search (evaluated on abstract lines)",
+                  "parse._iter_for_pattern: a match is recorded with a line/span of a different line", "; ".join(folded4[:2]), loc=ifp.loc(pm[0]))
+    if folded4 is None:
+        lps = [n for n in walk_no_nested(ifp.node) if isinstance(n, ast.For) and unparse(n.iter).startswith("enumerate(") and any(c is pm[0] for c in ast.walk(n))]
+        ctx.require(len(lps) == 1, f"{ifp.name}: line loop not found")
+        lp = lps[0]
+        names = [unparse(e) for e in lp.target.elts] if isinstance(lp.target, ast.Tuple) else []
+        pmf = prog.klass("parse.PatternMatch").fields
+        a = dict(zip(pmf, pm[0].args))
+        a.update(shapes.kwargs_of(pm[0]))
+        span_e = a.get("span")
+        mvar = unparse(span_e.func.value) if isinstance(span_e, ast.Call) and isinstance(span_e.func, ast.Attribute) and span_e.func.attr == "span" and not span_e.args else None
+        mdef = shapes.single_def(ifp, mvar) if mvar else None
+        pat_e = unparse(a.get("pattern", ast.Constant(0)))
+        pat_ok = pat_e == (ifp.params[1] if ifp.name == "_iter_for_pattern" else None) or any(isinstance(l_, ast.For) and unparse(l_.target) == pat_e and any(x is lp for x in ast.walk(l_))
+                                                                                             for l_ in walk_no_nested(ifp.node))
+        ok = len(names) == 2 and unparse(a.get("lineno", ast.Constant(0))) == names[0] and unparse(a.get("line", ast.Constant(0))) == names[1] \
+            and mvar is not None and mdef is not None and unparse(mdef) == f"{pat_e}.regexp.search({names[1]})" and pat_ok
+        ctx.check("R3", ok, "_iter_for_pattern: PatternMatch(lineno, line, pattern, match.span(), ...) of the same enumerate step and search",
+                  "parse._iter_for_pattern: a match is recorded with a line/span of a different line", unparse(pm[0]), loc=ifp.loc(pm[0]))
 
     # ---------------------------------------------------------------- R4
     writes = effects.all_sites("FS_WRITE")
